@@ -524,3 +524,411 @@ Proof.
   rewrite forallb_forall in S. specialize (S mr (in_zrange 32 mr Hr)).
   apply andb_true_iff in S. exact S.
 Qed.
+
+(* ================================================================ the merged cursor, unbounded
+   One proof for both directions: a walk over two lists sorted by an arbitrary
+   strict total order [lt]; forwards it is instantiated with the key order,
+   backwards with the reversed lists and the reversed order. *)
+
+Lemma find_app_none {A} (P : A -> bool) a b :
+  (forall x, In x a -> P x = false) -> find P (a ++ b) = find P b.
+Proof.
+  induction a as [|x a IH]; simpl; auto. intros H. rewrite (H x) by auto. apply IH. intros; apply H; auto.
+Qed.
+
+Section GenericMerge.
+  Variable lt : key -> key -> bool.
+  Hypothesis lt_irrefl : forall a, lt a a = false.
+  Hypothesis lt_trans : forall a b c, lt a b = true -> lt b c = true -> lt a c = true.
+  Hypothesis lt_total : forall a b, lt a b = false -> lt b a = false -> a = b.
+  Variables (db pend : list key) (skip : key -> bool).
+
+  Fixpoint gsorted (l : list key) : Prop :=
+    match l with [] => True | k :: r => Forall (fun y => lt k y = true) r /\ gsorted r end.
+
+  Definition gnext (l : list key) (p : option key) : option key :=
+    match p with Some k => find (fun y => lt k y) l | None => None end.
+
+  Fixpoint gskip (fuel : nat) (p : option key) : option key :=
+    match fuel, p with
+    | S f, Some k => if skip k then gskip f (gnext db p) else p
+    | _, _ => p
+    end.
+
+  Definition gchoose (d p : option key) : mcur :=
+    let d := gskip (S (length db)) d in
+    match d, p with
+    | None, None => {| mc_db := d; mc_pend := p; mc_cur := None |}
+    | Some _, None => {| mc_db := d; mc_pend := p; mc_cur := Some true |}
+    | None, Some _ => {| mc_db := d; mc_pend := p; mc_cur := Some false |}
+    | Some a, Some b => {| mc_db := d; mc_pend := p; mc_cur := Some (negb (lt b a)) |}
+    end.
+
+  Definition gfirst : mcur := gchoose (hd_error db) (hd_error pend).
+  Definition gstep (c : mcur) : mcur :=
+    match mc_cur c with
+    | None => c
+    | Some true => gchoose (gnext db (mc_db c)) (mc_pend c)
+    | Some false => gchoose (mc_db c) (gnext pend (mc_pend c))
+    end.
+
+  Fixpoint gwalk (c : mcur) (n : nat) : list (option key) :=
+    match n with O => [] | S n' => let c' := gstep c in cur_key c' :: gwalk c' n' end.
+  Fixpoint gspec (m : list key) (p : option key) (n : nat) : list (option key) :=
+    match n with O => [] | S n' => let p' := gnext m p in p' :: gspec m p' n' end.
+
+  (* merge: from the left list unless the right head is strictly smaller *)
+  Fixpoint gmerge (a : list key) : list key -> list key :=
+    match a with
+    | [] => fun b => b
+    | x :: a' =>
+      fix mr (b : list key) : list key :=
+        match b with
+        | [] => a
+        | y :: b' => if lt y x then y :: mr b' else x :: gmerge a' b
+        end
+    end.
+
+  Definition keep (l : list key) : list key := filter (fun y => negb (skip y)) l.
+  Fixpoint dropskip (l : list key) : list key :=
+    match l with [] => [] | k :: r => if skip k then dropskip r else l end.
+
+  Lemma keep_dropskip l : keep (dropskip l) = keep l.
+  Proof. induction l as [|k r IH]; simpl; auto. destruct (skip k) eqn:E; simpl; auto. rewrite E. auto. Qed.
+
+  Lemma gsorted_app a b : gsorted (a ++ b) ->
+    gsorted a /\ gsorted b /\ (forall x y, In x a -> In y b -> lt x y = true).
+  Proof.
+    induction a as [|k a IH]; simpl.
+    - intros H. repeat split; auto; intros ? ? [].
+    - intros [F S]. apply Forall_app in F. destruct F as [Fa Fb]. destruct (IH S) as (Sa & Sb & Hab).
+      repeat split; auto. intros x y [<-|Hx] Hy; auto. rewrite Forall_forall in Fb. auto.
+  Qed.
+
+  (* the successor of k in a sorted list that contains k *)
+  Lemma gnext_split a k t : gsorted (a ++ k :: t) -> gnext (a ++ k :: t) (Some k) = hd_error t.
+  Proof.
+    intros S. destruct (gsorted_app _ _ S) as (Sa & Sk & Hak). simpl in Sk. destruct Sk as [Fk St].
+    simpl. rewrite find_app_none.
+    - simpl. rewrite lt_irrefl. destruct t as [|y t]; auto. simpl. inversion Fk; subst. rewrite H1. auto.
+    - intros x Hx. specialize (Hak x k Hx (or_introl eq_refl)).
+      destruct (lt k x) eqn:E; auto. pose proof (lt_trans _ _ _ E Hak) as C. rewrite lt_irrefl in C. discriminate.
+  Qed.
+
+  Lemma lt_asym a b : lt a b = true -> lt b a = false.
+  Proof.
+    intros H. destruct (lt b a) eqn:E; auto. pose proof (lt_trans _ _ _ H E) as C.
+    rewrite lt_irrefl in C. discriminate.
+  Qed.
+
+  Lemma dropskip_suffix l : exists pre, l = pre ++ dropskip l.
+  Proof.
+    induction l as [|k r [pre IH]]; simpl; [exists []; auto|].
+    destruct (skip k); [exists (k :: pre); simpl; congruence|exists []; auto].
+  Qed.
+
+  Lemma dropskip_head l : match dropskip l with k :: _ => skip k = false | [] => True end.
+  Proof. induction l as [|k r IH]; simpl; auto. destruct (skip k) eqn:E; auto. Qed.
+
+  Lemma dropskip_id l : match l with k :: _ => skip k = false | [] => True end -> dropskip l = l.
+  Proof. destruct l; simpl; auto. intros ->. auto. Qed.
+
+  Lemma gskip_drop t : forall pre fuel, db = pre ++ t -> gsorted db -> (length t < fuel)%nat ->
+    gskip fuel (hd_error t) = hd_error (dropskip t).
+  Proof.
+    induction t as [|k t IH]; intros pre fuel E S F; destruct fuel; simpl in F; try lia; auto.
+    cbn [gskip hd_error dropskip]. destruct (skip k); auto.
+    assert (G : gnext db (Some k) = hd_error t) by (rewrite E; apply gnext_split; rewrite <- E; auto).
+    rewrite G. apply (IH (pre ++ [k])); auto; [rewrite <- app_assoc; auto|lia].
+  Qed.
+
+  (* ---- merge facts *)
+  Lemma gmerge_nil_r a : gmerge a [] = a.
+  Proof. destruct a; auto. Qed.
+
+  Lemma gmerge_cons x a y b :
+    gmerge (x :: a) (y :: b) = if lt y x then y :: gmerge (x :: a) b else x :: gmerge a (y :: b).
+  Proof. reflexivity. Qed.
+
+  Lemma gmerge_in a : forall b k, In k (gmerge a b) <-> In k a \/ In k b.
+  Proof.
+    induction a as [|x a IHa]; [simpl; tauto|].
+    induction b as [|y b IHb]; intros k; [rewrite gmerge_nil_r; simpl; tauto|].
+    rewrite gmerge_cons. destruct (lt y x); simpl; [rewrite IHb|rewrite IHa]; simpl; tauto.
+  Qed.
+
+  Lemma gmerge_sorted a : forall b, gsorted a -> gsorted b ->
+    (forall x, In x a -> In x b -> False) -> gsorted (gmerge a b).
+  Proof.
+    induction a as [|x a IHa]; [simpl; auto|].
+    induction b as [|y b IHb]; intros Sa Sb D; [rewrite gmerge_nil_r; auto|].
+    rewrite gmerge_cons. destruct Sa as [Fa Sa], Sb as [Fb Sb]. rewrite Forall_forall in Fa, Fb.
+    destruct (lt y x) eqn:E.
+    - cbn [gsorted]. split.
+      + apply Forall_forall. intros z Hz. apply gmerge_in in Hz. destruct Hz as [[<-|Hz]|Hz]; auto.
+        eapply lt_trans; eauto.
+      + apply IHb; simpl; auto. { split; auto. apply Forall_forall; auto. }
+        intros z Hz Hb. apply (D z); simpl; auto.
+    - assert (L : lt x y = true).
+      { destruct (lt x y) eqn:E2; auto. exfalso. apply (D x); [left; auto|left; apply lt_total; auto]. }
+      cbn [gsorted]. split.
+      + apply Forall_forall. intros z Hz. apply gmerge_in in Hz. destruct Hz as [Hz|[<-|Hz]]; auto.
+        eapply lt_trans; eauto.
+      + apply IHa; simpl; auto. { split; auto. apply Forall_forall; auto. }
+        intros z Hz Hb. apply (D z); simpl; auto.
+  Qed.
+
+  Lemma gsorted_unique l1 : forall l2, gsorted l1 -> gsorted l2 ->
+    (forall k, In k l1 <-> In k l2) -> l1 = l2.
+  Proof.
+    induction l1 as [|x l1 IH]; intros [|y l2] S1 S2 H; auto.
+    - destruct (proj2 (H y)); simpl; auto.
+    - destruct (proj1 (H x)); simpl; auto.
+    - destruct S1 as [F1 S1], S2 as [F2 S2]. rewrite Forall_forall in F1, F2.
+      assert (x = y).
+      { destruct (proj1 (H x) (or_introl eq_refl)) as [E|Hx]; auto.
+        destruct (proj2 (H y) (or_introl eq_refl)) as [E|Hy]; auto.
+        pose proof (F2 _ Hx) as A. pose proof (F1 _ Hy) as B. rewrite (lt_asym _ _ A) in B. discriminate. }
+      subst y. f_equal. apply IH; auto. intros k. split; intros Hk.
+      + destruct (proj1 (H k) (or_intror Hk)) as [<-|]; auto.
+        pose proof (F1 _ Hk) as A. rewrite lt_irrefl in A. discriminate.
+      + destruct (proj2 (H k) (or_intror Hk)) as [<-|]; auto.
+        pose proof (F2 _ Hk) as A. rewrite lt_irrefl in A. discriminate.
+  Qed.
+
+  (* ---- the walk *)
+  Hypothesis Sdb : gsorted db.
+  Hypothesis Spend : gsorted pend.
+  Hypothesis pend_skipped : forall k, In k pend -> skip k = true.
+
+  Definition M : list key := gmerge (keep db) pend.
+
+  Definition cur_of (dr pr : list key) : option bool :=
+    match dr, pr with
+    | [], [] => None
+    | _ :: _, [] => Some true
+    | [], _ :: _ => Some false
+    | a :: _, b :: _ => Some (negb (lt b a))
+    end.
+
+  Definition Inv (c : mcur) (R : list key) : Prop :=
+    exists da dr pa pr ma,
+      db = da ++ dr /\ pend = pa ++ pr /\ M = ma ++ R /\ R = gmerge (keep dr) pr /\
+      match dr with k :: _ => skip k = false | [] => True end /\
+      mc_db c = hd_error dr /\ mc_pend c = hd_error pr /\ mc_cur c = cur_of dr pr.
+
+  Lemma keep_sorted l : gsorted l -> gsorted (keep l).
+  Proof.
+    induction l as [|k r IH]; simpl; auto. intros [F S]. destruct (skip k); simpl; auto. split; auto.
+    rewrite Forall_forall in *. intros y Hy. apply filter_In in Hy. apply F. tauto.
+  Qed.
+
+  Lemma M_sorted : gsorted M.
+  Proof.
+    apply gmerge_sorted; auto. { apply keep_sorted; auto. }
+    intros x Hx Hp. apply filter_In in Hx. rewrite (pend_skipped x Hp) in Hx. destruct Hx. discriminate.
+  Qed.
+
+  Lemma choose_inv da dr0 pa pr ma : db = da ++ dr0 -> pend = pa ++ pr ->
+    M = ma ++ gmerge (keep dr0) pr ->
+    Inv (gchoose (hd_error dr0) (hd_error pr)) (gmerge (keep dr0) pr).
+  Proof.
+    intros Ed Ep Em. unfold gchoose.
+    rewrite (gskip_drop dr0 da) by (auto; rewrite Ed, app_length; lia).
+    destruct (dropskip_suffix dr0) as [pre Epre].
+    pose proof (dropskip_head dr0) as Hh.
+    exists (da ++ pre), (dropskip dr0), pa, pr, ma.
+    rewrite keep_dropskip.
+    assert (Ed' : db = (da ++ pre) ++ dropskip dr0) by (rewrite <- app_assoc, <- Epre; auto).
+    destruct (dropskip dr0) as [|a dr]; destruct pr as [|b pr]; simpl; repeat split; auto.
+  Qed.
+
+  Lemma cur_key_inv c R : Inv c R -> cur_key c = hd_error R.
+  Proof.
+    intros (da & dr & pa & pr & ma & Ed & Ep & Em & ER & Hh & Hd & Hp & Hc).
+    unfold cur_key. rewrite Hc, Hd, Hp, ER.
+    destruct dr as [|a dr]; destruct pr as [|b pr]; simpl; auto.
+    - rewrite Hh. simpl. auto.
+    - rewrite Hh. simpl. destruct (lt b a); auto.
+  Qed.
+
+  Lemma step_inv c R : Inv c R -> Inv (gstep c) (tl R).
+  Proof.
+    intros (da & dr & pa & pr & ma & Ed & Ep & Em & ER & Hh & Hd & Hp & Hc).
+    unfold gstep. rewrite Hc.
+    assert (Spr : gsorted pend) by auto.
+    destruct dr as [|a dr]; destruct pr as [|b pr]; simpl cur_of; cbv iota.
+    - (* exhausted *)
+      subst R. simpl. exists da, [], pa, [], ma. repeat split; auto.
+    - (* only pending keys left *)
+      rewrite Hp, Hd. simpl hd_error.
+      assert (G : gnext pend (Some b) = hd_error pr) by (rewrite Ep; apply gnext_split; rewrite <- Ep; auto).
+      rewrite G. subst R. simpl.
+      apply (choose_inv da [] (pa ++ [b]) pr (ma ++ [b])); auto.
+      + rewrite <- app_assoc. auto.
+      + rewrite <- app_assoc. auto.
+    - (* only stored keys left *)
+      rewrite Hp, Hd. simpl hd_error.
+      assert (G : gnext db (Some a) = hd_error dr) by (rewrite Ed; apply gnext_split; rewrite <- Ed; auto).
+      rewrite G. subst R. simpl keep. rewrite Hh. simpl negb. cbv iota. rewrite gmerge_nil_r. simpl tl.
+      replace (keep dr) with (gmerge (keep dr) []) by apply gmerge_nil_r.
+      apply (choose_inv (da ++ [a]) dr pa [] (ma ++ [a])); auto.
+      + rewrite <- app_assoc. auto.
+      + rewrite <- app_assoc. rewrite Em. simpl keep. rewrite Hh. simpl. rewrite !gmerge_nil_r. auto.
+    - (* both *)
+      rewrite Hp, Hd. simpl hd_error.
+      assert (Ea : keep (a :: dr) = a :: keep dr) by (simpl; rewrite Hh; auto).
+      destruct (lt b a) eqn:E; simpl negb; cbv iota.
+      + (* the pending key is smaller *)
+        assert (G : gnext pend (Some b) = hd_error pr) by (rewrite Ep; apply gnext_split; rewrite <- Ep; auto).
+        assert (T : gmerge (keep (a :: dr)) (b :: pr) = b :: gmerge (keep (a :: dr)) pr)
+          by (rewrite Ea, gmerge_cons, E; auto).
+        rewrite G. subst R. rewrite T in *. simpl tl.
+        apply (choose_inv da (a :: dr) (pa ++ [b]) pr (ma ++ [b])); auto.
+        * rewrite <- app_assoc. auto.
+        * rewrite <- app_assoc. auto.
+      + (* the stored key is smaller *)
+        assert (G : gnext db (Some a) = hd_error dr) by (rewrite Ed; apply gnext_split; rewrite <- Ed; auto).
+        assert (T : gmerge (keep (a :: dr)) (b :: pr) = a :: gmerge (keep dr) (b :: pr))
+          by (rewrite Ea, gmerge_cons, E; auto).
+        rewrite G. subst R. rewrite T in *. simpl tl.
+        apply (choose_inv (da ++ [a]) dr pa (b :: pr) (ma ++ [a])); auto.
+        * rewrite <- app_assoc. auto.
+        * rewrite <- app_assoc. auto.
+  Qed.
+
+  Lemma gnext_tl ma R : M = ma ++ R -> gnext M (hd_error R) = hd_error (tl R).
+  Proof.
+    intros E. destruct R as [|k R]; simpl; auto.
+    change (find (fun y => lt k y) M) with (gnext M (Some k)).
+    rewrite E. apply gnext_split. rewrite <- E. apply M_sorted.
+  Qed.
+
+  Lemma gwalk_spec n : forall c R, Inv c R -> gwalk c n = gspec M (hd_error R) n.
+  Proof.
+    induction n as [|n IH]; intros c R I; simpl; auto.
+    pose proof (step_inv c R I) as I'.
+    destruct I as (da & dr & pa & pr & ma & Ed & Ep & Em & _).
+    rewrite (cur_key_inv _ _ I'), (gnext_tl ma R Em). f_equal. apply IH; auto.
+  Qed.
+
+  Theorem gwalk_all n :
+    cur_key gfirst :: gwalk gfirst n = hd_error M :: gspec M (hd_error M) n.
+  Proof.
+    assert (I : Inv gfirst M).
+    { apply (choose_inv [] db [] pend []); auto. }
+    rewrite (cur_key_inv _ _ I). f_equal. apply gwalk_spec; auto.
+  Qed.
+End GenericMerge.
+
+(* ---------------------------------------------------------------- instantiation *)
+
+Definition kgt (a b : key) : bool := kltb b a.
+Definition ksorted (l : list key) : Prop := gsorted kltb l.
+
+Lemma kltb_irrefl a : kltb a a = false.
+Proof. unfold kltb. rewrite kcmp_refl. auto. Qed.
+Lemma kltb_trans a b c : kltb a b = true -> kltb b c = true -> kltb a c = true.
+Proof. rewrite !kltb_lt. apply klt_trans. Qed.
+Lemma kltb_total a b : kltb a b = false -> kltb b a = false -> a = b.
+Proof.
+  unfold kltb. intros H1 H2. destruct (kcmp_cases a b) as [[_ E]|[[E _]|[H E]]]; auto.
+  - rewrite E in H1. discriminate.
+  - unfold klt in H. rewrite H in H2. discriminate.
+Qed.
+Lemma kgt_irrefl a : kgt a a = false. Proof. apply kltb_irrefl. Qed.
+Lemma kgt_trans a b c : kgt a b = true -> kgt b c = true -> kgt a c = true.
+Proof. unfold kgt. intros. eapply kltb_trans; eauto. Qed.
+Lemma kgt_total a b : kgt a b = false -> kgt b a = false -> a = b.
+Proof. unfold kgt. intros. apply kltb_total; auto. Qed.
+
+Lemma rev_gsorted l : gsorted kltb l -> gsorted kgt (rev l).
+Proof.
+  induction l as [|k r IH]; simpl; auto. intros [F S].
+  assert (G : forall a b, gsorted kgt a -> gsorted kgt b -> (forall x y, In x a -> In y b -> kgt x y = true) ->
+              gsorted kgt (a ++ b)).
+  { induction a as [|x a IHa]; simpl; auto. intros b [Fa Sa] Sb H. split.
+    - apply Forall_app. split; auto. apply Forall_forall. intros y Hy. apply H; auto.
+    - apply IHa; auto. }
+  apply G; simpl; auto.
+  intros x y Hx [<-|[]]. unfold kgt. rewrite Forall_forall in F. apply F. apply in_rev. auto.
+Qed.
+
+(* forward: the Go cursor's First/Next are the generic walk for the key order *)
+Lemma skip_loop_fwd db skip fuel : forall p, skip_loop db skip fuel true p = gskip kltb db skip fuel p.
+Proof. induction fuel as [|f IH]; intros [k|]; simpl; auto. destruct (skip k); auto. Qed.
+
+Lemma skip_loop_bwd db skip fuel : forall p, skip_loop db skip fuel false p = gskip kgt (rev db) skip fuel p.
+Proof. induction fuel as [|f IH]; intros [k|]; simpl; auto. destruct (skip k); auto. Qed.
+
+Lemma choose_fwd db skip d p : choose db skip true d p = gchoose kltb db skip d p.
+Proof.
+  unfold choose, gchoose. rewrite skip_loop_fwd.
+  destruct (gskip kltb db skip (S (length db)) d) as [a|]; destruct p as [b|]; auto.
+  try (unfold kltb; rewrite (kcmp_antisym a b); destruct (kcmp a b); auto).
+Qed.
+
+Lemma choose_bwd db skip d p : choose db skip false d p = gchoose kgt (rev db) skip d p.
+Proof.
+  unfold choose, gchoose. rewrite skip_loop_bwd, rev_length.
+  destruct (gskip kgt (rev db) skip (S (length db)) d) as [a|]; destruct p as [b|]; auto.
+Qed.
+
+Lemma cur_run_fwd db pend skip n : forall c,
+  cur_run db pend skip c (repeat CNext n) = gwalk kltb db pend skip c n.
+Proof.
+  induction n as [|n IH]; intros c; [reflexivity|]. cbn [repeat cur_run gwalk].
+  assert (E : cur_step db pend skip c CNext = gstep kltb db pend skip c).
+  { unfold gstep. simpl. destruct (mc_cur c) as [[|]|]; auto; apply choose_fwd. }
+  rewrite E. f_equal. apply IH.
+Qed.
+
+Lemma cur_run_bwd db pend skip n : forall c,
+  cur_run db pend skip c (repeat CPrev n) = gwalk kgt (rev db) (rev pend) skip c n.
+Proof.
+  induction n as [|n IH]; intros c; [reflexivity|]. cbn [repeat cur_run gwalk].
+  assert (E : cur_step db pend skip c CPrev = gstep kgt (rev db) (rev pend) skip c).
+  { unfold gstep. simpl. destruct (mc_cur c) as [[|]|]; auto; apply choose_bwd. }
+  rewrite E. f_equal. apply IH.
+Qed.
+
+Lemma spec_run_fwd m n : forall p, spec_run m p (repeat CNext n) = gspec kltb m p n.
+Proof. induction n as [|n IH]; intros p; simpl; auto. f_equal. apply IH. Qed.
+Lemma spec_run_bwd m n : forall p, spec_run m p (repeat CPrev n) = gspec kgt (rev m) p n.
+Proof. induction n as [|n IH]; intros p; simpl; auto. f_equal. apply IH. Qed.
+
+(* the merged contents: sorted, and exactly the pending keys plus the stored
+   keys that are not skipped (removed or overridden) *)
+Definition merged_keys (db pend : list key) (skip : key -> bool) (m : list key) : Prop :=
+  ksorted m /\ forall k, In k m <-> In k pend \/ (In k db /\ skip k = false).
+
+Theorem cursor_forward_walk db pend skip m n :
+  ksorted db -> ksorted pend -> (forall k, In k pend -> skip k = true) -> merged_keys db pend skip m ->
+  cur_run db pend skip cur_init (CFirst :: repeat CNext n) = spec_run m None (CFirst :: repeat CNext n).
+Proof.
+  intros Sd Sp Hs [Sm Hm].
+  assert (E : m = M kltb db pend skip).
+  { apply (gsorted_unique kltb kltb_irrefl kltb_trans kltb_total); auto.
+    - apply (M_sorted kltb kltb_irrefl kltb_trans kltb_total); auto.
+    - intros k. rewrite Hm. unfold M. rewrite (gmerge_in kltb skip). unfold keep. rewrite filter_In.
+      rewrite negb_true_iff. tauto. }
+  simpl. rewrite cur_run_fwd, spec_run_fwd. rewrite choose_fwd. subst m.
+  apply (gwalk_all kltb kltb_irrefl kltb_trans kltb_total db pend skip Sd Sp Hs n).
+Qed.
+
+Theorem cursor_backward_walk db pend skip m n :
+  ksorted db -> ksorted pend -> (forall k, In k pend -> skip k = true) -> merged_keys db pend skip m ->
+  cur_run db pend skip cur_init (CLast :: repeat CPrev n) = spec_run m None (CLast :: repeat CPrev n).
+Proof.
+  intros Sd Sp Hs [Sm Hm].
+  assert (Hs' : forall k, In k (rev pend) -> skip k = true) by (intros k Hk; apply Hs, in_rev; auto).
+  assert (E : rev m = M kgt (rev db) (rev pend) skip).
+  { apply (gsorted_unique kgt kgt_irrefl kgt_trans kgt_total); auto.
+    - apply rev_gsorted; auto.
+    - apply (M_sorted kgt kgt_irrefl kgt_trans kgt_total); auto; apply rev_gsorted; auto.
+    - intros k. rewrite <- in_rev, Hm. unfold M. rewrite (gmerge_in kgt skip). unfold keep. rewrite filter_In.
+      rewrite negb_true_iff, <- !in_rev. tauto. }
+  simpl. rewrite cur_run_bwd, spec_run_bwd. rewrite choose_bwd. rewrite E.
+  apply (gwalk_all kgt kgt_irrefl kgt_trans kgt_total (rev db) (rev pend) skip
+           (rev_gsorted _ Sd) (rev_gsorted _ Sp) Hs' n).
+Qed.
